@@ -107,3 +107,60 @@ def run_cli(args, cwd, env=None, timeout=600, prog="nanoemoji.nanoemoji"):
     cmd = ["/venv/bin/python", "-m", prog] + [str(a) for a in args]
     p = subprocess.run(cmd, cwd=str(cwd), env=env or cli_env(), capture_output=True, text=True, timeout=timeout)
     return p.returncode, p.stdout + p.stderr
+
+
+def build_cli(overrides, sources, via="flag", cps_from_names=True):
+    """The same build through the real command line: the options are given as flags (via="flag") or in a config
+    file (via="file"), the sources as files; every step (config written for the workers, glyphmap, fea, picosvg,
+    parts, write_font) is the one ninja runs.  Returns (reloaded TTFont, intended FontConfig, picos, bytes) like
+    build_inprocess, so that the same oracles apply; raises RuntimeError(log) if the command fails."""
+    import toml
+    from fontTools import ttLib
+
+    with scratch_dir("verif-buildcli-") as tmp:
+        tmp = Path(tmp)
+        (tmp / "intended").mkdir()
+        intended_sources = sources
+        if overrides.get("color_format") in ("cbdt", "sbix"):
+            # the intended configuration only (the PNGs come from resvg in the real build)
+            from PIL import Image
+
+            b = io.BytesIO()
+            Image.new("RGBA", (1, 1)).save(b, format="PNG")
+            intended_sources = [tuple(s_[:3]) + (b.getvalue(),) for s_ in sources]
+        cfg, inputs, picos = make_config(tmp / "intended", overrides, intended_sources, cps_from_names)
+        srcdir = tmp / "src"
+        srcdir.mkdir()
+        paths = []
+        for s_ in sources:
+            p = srcdir / s_[0]
+            p.write_text(s_[1])
+            paths.append(p)
+        def flagval(v):
+            if hasattr(v, "_fields") and len(v) == 6:  # Affine2D
+                return "matrix(" + " ".join(repr(float(x)) for x in v) + ")"
+            return str(v)
+
+        args = ["--build_dir", tmp / "build"]
+        opts = {k: v for k, v in overrides.items() if v is not None}
+        if via == "flag":
+            for k, v in opts.items():
+                if isinstance(v, bool):
+                    args.append(f"--{k}" if v else f"--no{k}")
+                else:
+                    args += [f"--{k}", flagval(v)]
+            args += [str(p) for p in paths]
+        else:
+            body = {k: (flagval(v) if not isinstance(v, (bool, int, float, str)) else v) for k, v in opts.items()}
+            body.setdefault("output_file", "Font.ttf")
+            text = toml.dumps(body) + '[axis.wght]\nname = "Weight"\ndefault = 400\n[master.regular]\nstyle_name = "Regular"\nsrcs = ["src/*.svg"]\n[master.regular.position]\nwght = 400\n'
+            (tmp / "font.toml").write_text(text)
+            args.append(tmp / "font.toml")
+        rc, out = run_cli(args, cwd=tmp)
+        name = overrides.get("output_file", "Font.ttf")
+        f = tmp / "build" / name
+        if rc != 0 or not f.is_file():
+            raise RuntimeError(f"command line build failed (exit {rc}): " + out[-1500:])
+        data = f.read_bytes()
+    font = ttLib.TTFont(io.BytesIO(data), lazy=False)
+    return font, cfg, picos, data
